@@ -193,7 +193,9 @@ class CoreRule(FreshRule):
 def core_in_sync(ctx: Ctx):
     repo, res = ctx.repo, ctx.res
     qname = D + "_tucker.partial_tucker"
-    f = driver(repo, qname)
+    from ..inline import with_inlined
+
+    f = with_inlined(repo, driver(repo, qname))  # the sweep may live in a private helper
     row = DRIVERS[qname]
     rule = CoreRule(f, row, derived_names(f, row), "core", "factors")
     g = build_cfg(f.node, f.qname, opaque=rule.opaque)
